@@ -140,8 +140,8 @@ class FnWalk:
                     by_ref=pat['by_ref'])
             if ppath and init is not None:
                 d.src = {'via': 'let', 'expr': init, 'pat': None, 'scope': init_scope or scope, 'id': 0}
-            prev = scope.vars.get(d.name)
-            if prev is not None and prev.cfg and d.cfg:
+            prev = scope.lookup(d.name)
+            if prev is not None and prev.cfg and d.cfg and prev.kind == 'let':
                 d.twins = prev.twins + [prev]
                 for t in d.twins:
                     t.twins = [x for x in d.twins if x is not t] + [d]
